@@ -3,3 +3,6 @@ pub mod names;
 pub mod msg;
 pub mod to_hickory;
 pub mod zones;
+pub mod rrsets;
+pub mod internet;
+pub mod zonefile;
